@@ -26,7 +26,7 @@ def note_name_parse(name):
     """Grammar [A-G](#|b|x|##|bb)?\\d+ -> (step, alter, octave)."""
     step = name[0]
     i = 1
-    while i < len(name) and not name[i].isdigit():
+    while i < len(name) and not (name[i].isdigit() or name[i] == "-"):
         i += 1
     return step, ACCIDENTAL_TEXT[name[1:i]], int(name[i:])
 
